@@ -34,6 +34,11 @@ type Disk struct {
 	Touched        [][2]int
 	Fired          bool
 
+	// YieldAfter: also yield to the scheduler AFTER the bytes were handed out,
+	// i.e. between "the data arrived" and "the caller looks at it" (a goroutine
+	// can be descheduled there just as well)
+	YieldAfter bool
+
 	// RangeOnce: the FailRange fault fires only the first time the range is touched
 	RangeOnce bool
 
@@ -141,6 +146,9 @@ func (d *Disk) ReadAt(p []byte, off int64) (int, error) {
 		return n, io.EOF
 	}
 	r.Event("readat", "ok", fmt.Sprintf("%s off=%d len=%d", d.name, off, len(p)))
+	if d.YieldAfter {
+		r.Yield("readat-done")
+	}
 	return n, nil
 }
 
